@@ -35,6 +35,11 @@ Sub-checks are split so that one defect does not hide another.  Defects of the u
   method): kept in its own sub-check.
 ns_value, seesaw_r_eq_B, hedging_real, clone_real and clone_real_reps2 are quiet on the unrepaired tree.
 
+Observation outside the property (not asserted): for referee dimension > 1 `npa_constraints` ties sum_ab K(a,b|x,y) to
+the moment matrix only through its trace, not as the operator equation sum_ab K(a,b|x,y) = R[eps,eps]; the value is
+therefore looser than the canonical NPA level k and changes under relabelling of answers (e.g. 0.78620 / 0.78503 /
+0.78927 on one r = 3 game, 0.78345 in every labelling once the equation is added).  Every order relation still holds.
+
 Harness-side solvers are run single-threaded (CLARABEL max_threads=1, GLPK instead of HiGHS): a thread pool started in
 the runner's parent process (replay tier) deadlocks the forked shard processes.
 """
@@ -374,9 +379,15 @@ _npa_rect = _with_level(_mix(_named_game(_NPA_NAMED, pad="unequal"), _random_gam
 # ------------------------------------------------------------------------------------------
 @st.composite
 def _inv_case(draw):
+    """r = 1: every transformation.  r > 1: question permutations, player exchange, referee basis change and
+    conjugation only.  Reason (found while building this check, see the final note in the module docstring): for r > 1
+    toqito's program normalises sum_ab K(a,b|x,y) by its trace only instead of equating it with the referee state of
+    the moment matrix, so its level-k value is a valid upper bound (all order relations of the property hold) but not the
+    canonical level-k value, and it depends on which answer is enumerated last.  The property text does not promise
+    invariance of a relaxation value, so answer relabelling / padding is only asserted where the program is canonical."""
     c = draw(_random_game())
     shape = (c["r"], c["r"], c["A"], c["B"], c["X"], c["Y"])
-    c["tf"] = draw(H.tf_strategy(shape, max_pad=1 if max(c["A"], c["B"]) < 3 else 0))
+    c["tf"] = draw(H.tf_strategy(shape, max_pad=1 if max(c["A"], c["B"]) < 3 else 0, relabel=(c["r"] == 1)))
     return c
 
 
